@@ -285,7 +285,8 @@ func (bc *Blockchain) validateMempoolTx(txn adb.Txn, tx *transaction.Transaction
 						return fmt.Errorf("stake transaction PrevUnlock %d does not match fund unlock %d", stakeData.PrevUnlock, fund.Unlock)
 					}
 					fund.Amount, err = util.SafeAdd(fund.Amount, stakeData.Amount)
-					fund.Unlock = nextheight + config.STAKE_UNLOCK_TIME
+					// ApplyStake runs while the tip is still at nextheight-1
+					fund.Unlock = nextheight - 1 + config.STAKE_UNLOCK_TIME
 					if err != nil {
 						return err
 					}
@@ -297,7 +298,7 @@ func (bc *Blockchain) validateMempoolTx(txn adb.Txn, tx *transaction.Transaction
 				delegate.Funds = append(delegate.Funds, &chaintype.DelegatedFund{
 					Owner:  entry.Signer,
 					Amount: stakeData.Amount,
-					Unlock: nextheight + config.STAKE_UNLOCK_TIME,
+					Unlock: nextheight - 1 + config.STAKE_UNLOCK_TIME,
 				})
 			}
 
